@@ -1408,7 +1408,7 @@ class Container:
             raise TypeError("Solvent must be a substance.")
         if name and not isinstance(name, str):
             raise TypeError("New name must be a str.")
-        if solute not in self.contents:
+        if solute not in self.contents or self.contents[solute] == 0:
             raise ValueError(f"Container does not contain {solute.name}.")
 
         new_ratio, numerator, denominator = Unit.calculate_concentration_ratio(solute, concentration, solvent)
